@@ -64,6 +64,18 @@ def fuzz_part(run, rtbin):
         shutil.rmtree(wd, ignore_errors=True)
 
 
+ALT_TARGET = os.path.join(common.TARGET, "alt")
+
+
+def build_rtprops_alt(release=False):
+    """the same harness against the library in another configuration: without its `std` feature,
+    with the `log` feature and a trace-level logger that formats every record"""
+    ok, out = common.cargo_build("rtprops", release=release, extra=["--no-default-features", "--features", "altcfg"], target_dir=ALT_TARGET)
+    if not ok:
+        raise Infra("rtprops (alternative configuration) does not build against the current tree:\n" + out[-4000:])
+    return common.bin_path("rtprops", release=release, target_dir=ALT_TARGET)
+
+
 def rt(run):
     b = build_rtprops(release=(run.tier == "thorough"))
     if not run.replay:
@@ -71,6 +83,15 @@ def rt(run):
         for f in common.saved_replays(run.prop):
             run.run_harness(b, timeout=300, label="regression:" + os.path.basename(f), replay_file=f)
     run.run_harness(b, timeout=7200)
+    if run.prop != "C13":
+        # (C13's subject, the integer coding of io::Error, only exists with the `std` feature)
+        b2 = build_rtprops_alt(release=(run.tier == "thorough"))
+        run.tier_override = "quick"
+        try:
+            run.run_harness(b2, timeout=7200, label="altcfg-rtprops")
+        finally:
+            run.tier_override = None
+        run.assumptions.append("second pass over the quick-tier case set with the library built without its `std` feature and with `log` enabled at trace level")
     if run.tier == "thorough":
         fuzz_part(run, b)
 
@@ -439,7 +460,7 @@ def c04(run):
         return t
 
     viol, evals, nt, samples = [], 0, 0, []
-    order_checked = order_nt = 0
+    order_checked = order_nt = groups_checked = 0
     ref = results[0][1]
     for d in defs:
         evals += 1
@@ -471,6 +492,20 @@ def c04(run):
                 viol.append({"sub": "expansion-determinism", "key": "C04:vtable-order",
                              "what": f"definition {d['id']} ({d.get('label')}): the generated vtable struct has the function pointers {got}; the exported methods in declaration order are {d['exported']}",
                              "case": {"id": d["id"], "src": d["src"], "def": d}})
+        # a group is {mandatory vtables by name, optional vtables by name, container}, and its
+        # container {instance, context, temporary storage of each trait in that same order}
+        if d.get("group") and isinstance(ref.get(d["id"]), list) and not any(v["key"] == "C04:group-fields" for v in viol):
+            order = sorted(x.lower() for x in d["mand"]) + sorted(x.lower() for x in d["opt"])
+            want = {d["group"]: [f"vtbl_{x}" for x in order] + ["container"], d["group"] + "Container": ["instance", "context"] + [f"ret_tmp_{x}" for x in order]}
+            groups_checked += 1
+            for s_ in ref[d["id"]]:
+                if s_["name"] in want:
+                    gotf = [f[0] for f in s_["fields"] if not f[0].startswith("_")]
+                    if gotf != want[s_["name"]]:
+                        viol.append({"sub": "expansion-determinism", "key": "C04:group-fields",
+                                     "what": f"group definition {d['id']} (`{d['src']}`): struct {s_['name']} has the fields {gotf}; expected {want[s_['name']]} (mandatory by name, then optional by name; the container's temporary storage in that same order)",
+                                     "case": {"id": d["id"], "src": d["src"], "def": d}})
+                        break
         if len(variants) > 1:
             a, b = list(variants.items())[:2]
             # first differing struct
@@ -480,8 +515,8 @@ def c04(run):
                          "what": f"definition {d['id']} ({d.get('label')}): {len(variants)} different struct/field lists over {nproc} fresh processes; e.g. {json.dumps(diff)[:500]}",
                          "case": {"id": d["id"], "src": d["src"], "def": d}})
             break
-    run.add_result({"_label": "determinism", "evaluations": evals, "distinct_nontrivial": nt, "samples": samples, "violations": viol, "classes": {"determinism:definitions": evals, "determinism:processes": nproc, "vtable-order:traits": order_checked, "vtable-order:traits-with-2+-entries": order_nt}, "known_seen": {},
-                    "rule": f"each definition (enumerated single-method traits, random traits, random groups incl. groups with built-in external traits) is expanded by /repo's generator in {nproc} fresh processes (fresh RandomState) under three different expanding crates; the ordered list (struct name, [(field name, field type)]) of every repr(C) struct must be identical (the path prefix naming the runtime crate normalised); and for every trait definition the fields of the generated `<Trait>Vtbl` struct must be exactly the exported methods (not #[skip_func]; including #[vtbl_only]) in declaration order. Non-trivial = the expansion contains at least one repr(C) struct"})
+    run.add_result({"_label": "determinism", "evaluations": evals, "distinct_nontrivial": nt, "samples": samples, "violations": viol, "classes": {"determinism:definitions": evals, "determinism:processes": nproc, "vtable-order:traits": order_checked, "vtable-order:traits-with-2+-entries": order_nt, "group-fields:groups": groups_checked}, "known_seen": {},
+                    "rule": f"each definition (enumerated single-method traits, random traits, random groups incl. groups with built-in external traits) is expanded by /repo's generator in {nproc} fresh processes (fresh RandomState) under three different expanding crates; the ordered list (struct name, [(field name, field type)]) of every repr(C) struct must be identical (the path prefix naming the runtime crate normalised); and for every trait definition the fields of the generated `<Trait>Vtbl` struct must be exactly the exported methods (not #[skip_func]; including #[vtbl_only]) in declaration order, and for every group definition the group struct and its container struct must list vtable pointers resp. temporary storage as mandatory-by-name then optional-by-name. Non-trivial = the expansion contains at least one repr(C) struct"})
 
 
 def c20(run):
